@@ -115,6 +115,14 @@ impl<'a> StringLexer<'a> {
                 }
             },
 
+            // an unescaped end-of-line marker (CR, LF or CR LF) reads as a single LF
+            b'\r' => {
+                if let Ok(b'\n') = self.peek_byte() {
+                    let _ = self.next_byte();
+                }
+                Ok(Some(b'\n'))
+            },
+
             c => Ok(Some(c))
 
         }
